@@ -6,6 +6,7 @@ CONSTANTS
   MaxDepth = 2
   LitSizes = {3}
   ExprSizes = {1}
+  XKinds = {}
   HandKinds = {1}
   SideKs = {0, 1, 3}
   LeafSizes = {2}
